@@ -29,6 +29,9 @@ type CheckDef struct {
 	Also        []string                                 // harness files of these properties are loaded too
 	FnPattern   string                                   // harness functions of this property (default ^zz<ID>_)
 	Kinds       []string                                 // finding kinds that count for this property (default: all)
+	MaxSteps    int                                      // per-path step budget (default 60000)
+	LooseSamples bool                                    // harness compares uninterpreted float results: a sampled "ok" path may be an artefact of the abstraction
+	SolverMs    int                                      // per-query solver timeout in ms (default 20000)
 	AssertOnly  string                                   // when set: only assertion messages matching this regex count
 	Assumptions []string
 	Bounds      map[string]interface{}
@@ -420,6 +423,8 @@ func checkMain(args []string) int {
 			items[i].TimeoutS = []int{240, 1500}[tier]
 		}
 		items[i].Samples = []int{2, 6}[tier]
+		items[i].MaxSteps = def.MaxSteps
+		items[i].SolverMs = def.SolverMs
 		items[i].Seed = seed
 	}
 	results, err := runItems(items, extraDir, *nworkers)
@@ -500,6 +505,8 @@ func (c *CheckRun) finish(t0 time.Time) int {
 			} else if strings.HasPrefix(ro.Outcome, "build-error") {
 				broken = append(broken, tag+": "+ro.Outcome)
 				break
+			} else if c.def.LooseSamples && strings.HasPrefix(ro.Outcome, "assert-failed") {
+				// equalities over uninterpreted float functions can hold in the solver's model and fail natively: not counted
 			} else {
 				broken = append(broken, fmt.Sprintf("%s: ENCODING-MISMATCH sampled path predicted ok, native run gave %q (input %s)", tag, ro.Outcome, modelInputHex(mo)))
 			}
